@@ -33,7 +33,10 @@ ASSUMPTIONS = [
     'parse_script is abstracted to "text is a script | text is broken" (the parser itself is C06/C10)',
     'gas bounds the include nesting depth; results are gas-independent once the run does not end in outOfGas (theorem gas_stable)',
 ]
-TRUSTED = ['the tree renderer of harness/props/C17.py (abstract include tree -> BareScript texts + virtual file system)']
+TRUSTED = ['the tree renderer of harness/props/C17.py (abstract include tree -> BareScript texts + virtual file system)',
+           'the program renderer rx_render and the reference rx_expected of the reexec stream (abstract program with loops, jumps, functions and '
+           'versioned locations -> BareScript texts; the property statement unrolled along the control flow). The Lean include machine has no '
+           'loops (theorem include_fetch_order covers every execution of an include statement; re-execution is tied on the implementation side only)']
 
 CORPUS = os.path.join(fw.VERIF, 'harness', 'corpus', 'C17.jsonl')
 BIG = 100000
@@ -822,11 +825,598 @@ def stream_cli(ctx):
 
 
 # ---------------------------------------------------------------------------------------------------------------------
+# reexec stream: include statements that are executed MORE THAN ONCE (loops, backward jumps, functions called again, the
+# same file named by several statements) over a virtual file system whose content CHANGES between fetches
+# ---------------------------------------------------------------------------------------------------------------------
+#
+# Abstract program of one script (a list of items):
+#   {'stmt': tag}                          'L…' -> systemLog('tag') ; 'S…' -> trace = trace + 'tag;' (global scope only)
+#   {'inc': [[ref, system], …]}            one include statement (one line per entry)
+#   {'loop': kind, 'n': n, 'var': v, 'body': items}   kind 'while' | 'for' (n rounds) ; 'jump' | 'whilebreak' (do-while: max(1,n) rounds);
+#                                          v counts the rounds from 0
+#   {'when': [k…], 'var': v, 'body': items}   if v == k || … : body endif   (v: a loop counter of the same frame)
+#   {'def': name, 'body': items} / {'call': name}     function definition (top level of a file) / call statement in the same file
+#   {'set': loc, 'v': i} / {'set': loc, 'var': v, 'mod': m}   host function vfsSet(loc, i | v % m): the script rewrites the location
+#   'ret'                                  return
+# A location holds a list of versions (text / missing / throws / broken); a fetch returns the current one and, in mode
+# 'counter', moves on to the next (cyclically) - the counter-stamped text of a versioned host fetchFn.
+# The reference (rx_expected) is the property statement unrolled along the control flow: every EXECUTION of an include
+# statement fetches each of its entries from the location resolved against the file containing the statement, in order,
+# runs the text returned by THAT fetch to its end or its return, in global scope, and then the includer goes on.
+
+class _RxRet(Exception):
+    pass
+
+
+class _RxEnd(Exception):
+    def __init__(self, outcome):
+        super().__init__(outcome)
+        self.outcome = outcome
+
+
+class _RxCap(Exception):
+    pass
+
+
+RX_LOOPS = ['while', 'for', 'jump', 'whilebreak']
+
+
+def rx_rounds(kind, n):
+    return n if kind in ('while', 'for') else max(1, n)
+
+
+def rx_expected(case, cap=1500):
+    """-> {'events', 'outcome', 'trace', 'stats'} prescribed by the property, or None if the unrolled run is longer than cap."""
+    files = case['files']
+    prefix = case['systemPrefix']
+    counter = case['mode'] == 'counter'
+    cur = {loc: 0 for loc in files}
+    events, trace, env, funcs = [], [], {}, {}
+    per_frame, per_stmt_frames, per_loc_stmts, texts_of_loc = {}, {}, {}, {}
+    frames = [0]
+
+    def emit(ev):
+        events.append(ev)
+        if len(events) + len(trace) > cap:
+            raise _RxCap()
+
+    def new_frame():
+        frames[0] += 1
+        return frames[0]
+
+    def run(items, self_loc, frame):
+        for it in items:
+            if it == 'ret':
+                raise _RxRet()
+            if 'stmt' in it:
+                if it['stmt'].startswith('L'):
+                    emit(['exec', it['stmt']])
+                else:
+                    trace.append(it['stmt'])
+                    if len(events) + len(trace) > cap:
+                        raise _RxCap()
+            elif 'inc' in it:
+                key = id(it)
+                per_frame[(frame, key)] = per_frame.get((frame, key), 0) + 1
+                per_stmt_frames.setdefault(key, set()).add(frame)
+                for url, system in it['inc']:
+                    loc = spec_location(prefix, self_loc, url, system)
+                    emit(['fetch', loc])
+                    per_loc_stmts.setdefault(loc, set()).add(key)
+                    f = files.get(loc)
+                    ver = None
+                    if f is not None:
+                        v = cur[loc] % len(f['versions'])
+                        ver = f['versions'][v]
+                        texts_of_loc.setdefault(loc, set()).add(v)
+                        if counter:
+                            cur[loc] = (v + 1) % len(f['versions'])
+                    if ver is None or ver['kind'] in ('missing', 'throws'):
+                        raise _RxEnd({'kind': 'includeFailed', 'url': loc})
+                    if ver['kind'] == 'broken':
+                        raise _RxEnd({'kind': 'parseError', 'url': loc})
+                    try:
+                        run(ver['items'], loc, new_frame())       # the text of THIS fetch, now, to its end or its return
+                    except _RxRet:
+                        pass
+            elif 'loop' in it:
+                for k in range(rx_rounds(it['loop'], it['n'])):
+                    env[it['var']] = k
+                    run(it['body'], self_loc, frame)
+            elif 'when' in it:
+                if env.get(it['var']) in it['when']:
+                    run(it['body'], self_loc, frame)
+            elif 'def' in it:
+                funcs[it['def']] = it['body']
+            elif 'call' in it:
+                try:
+                    run(funcs[it['call']], self_loc, new_frame())
+                except _RxRet:
+                    pass
+            elif 'set' in it:
+                cur[it['set']] = it['v'] if 'v' in it else env[it['var']] % it['mod']
+
+    outcome = {'kind': 'ok'}
+    try:
+        run(case['root']['items'], case['urlFn'], 0)
+    except _RxRet:
+        pass
+    except _RxEnd as end:
+        outcome = end.outcome
+    except _RxCap:
+        return None
+    stats = {
+        'reexec-same-frame': any(n > 1 for n in per_frame.values()),
+        'reexec-new-frame': any(len(s) > 1 for s in per_stmt_frames.values()),
+        'loc-by-several-stmts': any(len(s) > 1 for s in per_loc_stmts.values()),
+        'content-changed': any(len(s) > 1 for s in texts_of_loc.values()),
+        'refetched': len([e for e in events if e[0] == 'fetch']) > len({e[1] for e in events if e[0] == 'fetch'}),
+    }
+    return {'events': events, 'outcome': outcome, 'trace': ''.join(t + ';' for t in trace), 'stats': stats}
+
+
+def rx_render(items, indent=0):
+    """Abstract items -> BareScript lines (the trusted renderer of this stream; deterministic)."""
+    pad = '    ' * indent
+    lines = []
+    for it in items:
+        if it == 'ret':
+            lines.append(pad + 'return')
+        elif 'stmt' in it:
+            tag = it['stmt']
+            lines.append(pad + (f"systemLog('{tag}')" if tag.startswith('L') else f"trace = trace + '{tag};'"))
+        elif 'inc' in it:
+            lines.extend(pad + 'include ' + quote_url(ref, system) for ref, system in it['inc'])
+        elif 'loop' in it:
+            kind, n, v = it['loop'], it['n'], it['var']
+            body = rx_render(it['body'], indent + 1)
+            if kind == 'while':
+                lines += [f'{pad}{v} = 0', f'{pad}while {v} < {n}:'] + body + [f'{pad}    {v} = {v} + 1', f'{pad}endwhile']
+            elif kind == 'for':
+                lines += [f'{pad}for e{v}, {v} in arrayNew({", ".join(str(10 + k) for k in range(n))}):'] + body + [f'{pad}endfor']
+            elif kind == 'jump':
+                lines += [f'{pad}{v} = 0', f'{pad}lbl{v}:'] + body + [f'{pad}    {v} = {v} + 1', f'{pad}jumpif ({v} < {n}) lbl{v}']
+            else:
+                lines += [f'{pad}{v} = 0', f'{pad}while true:'] + body + [f'{pad}    {v} = {v} + 1', f'{pad}    if {v} >= {n}:', f'{pad}        break',
+                                                                           f'{pad}    endif', f'{pad}endwhile']
+        elif 'when' in it:
+            cond = ' || '.join(f'{it["var"]} == {k}' for k in it['when']) or 'false'
+            lines += [f'{pad}if {cond}:'] + rx_render(it['body'], indent + 1) + [f'{pad}endif']
+        elif 'def' in it:
+            lines += [f'{pad}function {it["def"]}():'] + rx_render(it['body'], indent + 1) + [f'{pad}endfunction']
+        elif 'call' in it:
+            lines.append(f'{pad}{it["call"]}()')
+        elif 'set' in it:
+            arg = str(it['v']) if 'v' in it else f'{it["var"]} % {it["mod"]}'
+            lines.append(f"{pad}vfsSet('" + it['set'].replace('\\', '\\\\').replace("'", "\\'") + f"', {arg})")
+    return lines
+
+
+def rx_finish(case):
+    """Render every text of a case built from abstract items (root and all versions)."""
+    case['root']['text'] = '\n'.join(rx_render(case['root']['items']))
+    for f in case['files'].values():
+        for ver in f['versions']:
+            if ver['kind'] == 'text':
+                ver['text'] = '\n'.join(rx_render(ver['items'])) + '\n'
+    return case
+
+
+class LoopGen:
+    """One random program with re-executed include statements. Locations come from the property's reading (spec_location)."""
+
+    def __init__(self, rng, max_depth=None):
+        self.rng = rng
+        self.max_depth = max_depth if max_depth is not None else rng.choice([1, 1, 2, 2, 3])
+        self.files = {}
+        self.fid = 0
+        self.counter = 0
+        self.versions_left = rng.choice([4, 8, 12, 16])
+        self.prefix = rng.choice(PREFIXES)
+        self.root_loc = rng.choice(ROOTS)
+        self.mode = rng.choice(['counter', 'counter', 'counter', 'static'])
+        self.p_fail = rng.choice([0, 0, 0, 0.08, 0.2])
+        self.done_locs = []        # completed locations that an absolute reference / URL names from anywhere
+        self.multi = []            # completed locations with more than one version
+        self.max_statements = rng.choice([BIG] * 11 + [rng.randint(3, 120)])
+
+    def fresh_ref(self):
+        rng = self.rng
+        self.counter += 1
+        n = f'p{self.counter}.bare'
+        k = rng.randint(0, 1)
+        system = rng.random() < 0.2
+        forms = [(6, n), (4, f'sub{k}/{n}'), (2, f'./{n}'), (3, f'../{n}'), (1, f'd{k}//{n}'), (1, f'a b/{n}'), (1, f"it's/{n}"),
+                 (4, f'/abs{k}/{n}'), (1, f'//net/{n}'), (4, f'http://h{k}/p/{n}'), (1, f'https://h/{n}?v=1/2'), (1, f'file:///f/{n}'), (1, f'x:{n}')]
+        x = rng.random() * sum(w for w, _ in forms)
+        for w, ref in forms:
+            x -= w
+            if x < 0:
+                break
+        return ref, system
+
+    def loop_kind(self, depth, in_fn):
+        # a `for` loop keeps its array and length in variables named by the parser (__bareScriptValues<n>, __bareScriptLength<n>, n counted per
+        # text): at the top level of two texts they are the SAME globals, so an included text's top-level `for` disturbs the `for` of its
+        # includer that is still running. That is "include runs in global scope" at work, not a fault of the include mechanism: `for` loops
+        # are generated only where their variables cannot meet - in function bodies (locals) and at the top level of the root script.
+        return self.rng.choice(RX_LOOPS if in_fn or depth == 0 else [k for k in RX_LOOPS if k != 'for'])
+
+    def gen_inc(self, self_loc, depth, var, local_refs):
+        """-> items: optionally a vfsSet of the included location, then the include statement"""
+        rng = self.rng
+        entries, pre = [], []
+        for _ in range(rng.choice([1, 1, 1, 2, 2, 3])):
+            r = rng.random()
+            if self.versions_left <= 0 and (local_refs or self.done_locs):
+                r = r * 0.5 if self.done_locs else 0.0
+            if local_refs and r < 0.35:
+                ref, system = rng.choice(local_refs)              # the same file named again by another statement of this file
+            elif self.done_locs and r < 0.5:
+                ref, system = rng.choice(self.done_locs), False   # … or of another file (absolute reference: no cycle, it is complete)
+            else:
+                for _attempt in range(20):
+                    ref, system = self.fresh_ref()
+                    loc = spec_location(self.prefix, self_loc, ref, system)
+                    if loc not in self.files and loc != self.root_loc:
+                        break
+                else:
+                    self.counter += 1
+                    ref, system = f'http://fallback/p{self.counter}.bare', False
+                    loc = ref
+                self.gen_file(loc, depth + 1)
+                local_refs.append([ref, system])
+            loc = spec_location(self.prefix, self_loc, ref, system)
+            entries.append([ref, system])
+            nver = len(self.files[loc]['versions']) if self.files.get(loc) else 0
+            if nver > 1 and rng.random() < (0.45 if self.mode == 'static' else 0.2):
+                if var is not None and rng.random() < 0.7:
+                    pre.append({'set': loc, 'var': var, 'mod': rng.randint(2, nver)})
+                else:
+                    pre.append({'set': loc, 'v': rng.randrange(nver)})
+        return pre + [{'inc': entries}]
+
+    def gen_items(self, self_loc, depth, in_fn=False, loop_depth=0, var=None, funcs=None, local_refs=None, top=True, want_inc=False):
+        rng = self.rng
+        if funcs is None:
+            funcs, local_refs = [], []                            # a new file: its own functions, its own references
+        tagbase = 't'
+        items = []
+        can_inc = depth < self.max_depth
+        n_slots = rng.randint(1, 3) if (depth or not top) else rng.randint(2, 5)
+        plan = [rng.random() for _ in range(n_slots)]
+        if want_inc and can_inc and not any(0.3 <= r < 0.6 for r in plan):
+            plan.insert(rng.randint(0, len(plan)), 0.45)
+        for r in plan:
+            self.counter += 1
+            idx = self.counter
+            if r < 0.3 or (0.3 <= r < 0.6 and (not can_inc or self.versions_left <= 0 and not local_refs and not self.done_locs)):
+                kind = 'L' if in_fn or rng.random() < 0.6 else 'S'
+                items.append({'stmt': f'{kind}{tagbase}.{idx}'})
+            elif r < 0.6:
+                items.extend(self.gen_inc(self_loc, depth, var, local_refs))
+            elif r < 0.78:
+                if loop_depth >= 2:
+                    items.append({'stmt': f'L{tagbase}.{idx}'})
+                    continue
+                v = f'i{idx}'
+                body = self.gen_items(self_loc, depth, in_fn, loop_depth + 1, v, funcs, local_refs, top=False, want_inc=rng.random() < 0.85)
+                if funcs and rng.random() < 0.3:
+                    body.insert(rng.randint(0, len(body)), {'call': rng.choice(funcs)})
+                items.append({'loop': self.loop_kind(depth, in_fn), 'n': rng.choice([0, 1, 2, 2, 2, 3, 3, 4]), 'var': v, 'body': body})
+            elif r < 0.84:
+                if var is None:
+                    items.append({'stmt': f'L{tagbase}.{idx}'})
+                    continue
+                body = self.gen_items(self_loc, depth, in_fn, loop_depth, var, funcs, local_refs, top=False, want_inc=rng.random() < 0.7)
+                items.append({'when': sorted(rng.sample(range(4), rng.randint(0, 3))), 'var': var, 'body': body})
+            elif r < 0.93:
+                if top and not in_fn:
+                    name = f'fn{idx}'
+                    body = self.gen_items(self_loc, depth, True, 0, None, list(funcs), local_refs, top=False, want_inc=rng.random() < 0.85)
+                    items.append({'def': name, 'body': body})
+                    funcs.append(name)
+                    # called again and again: a new frame every time
+                    if rng.random() < 0.5:
+                        items.extend({'call': name} for _ in range(rng.randint(1, 3)))
+                    elif loop_depth < 2:
+                        self.counter += 1
+                        items.append({'loop': self.loop_kind(depth, in_fn), 'n': rng.randint(1, 3), 'var': f'i{self.counter}', 'body': [{'call': name}]})
+                elif funcs:
+                    items.append({'call': rng.choice(funcs)})
+                else:
+                    items.append({'stmt': f'L{tagbase}.{idx}'})
+            elif r < 0.96:
+                if self.multi:
+                    loc = rng.choice(self.multi)
+                    items.append({'set': loc, 'v': rng.randrange(len(self.files[loc]['versions']))})
+                else:
+                    items.append({'stmt': f'L{tagbase}.{idx}'})
+            else:
+                if depth or in_fn or rng.random() < 0.3:
+                    items.append('ret')
+                else:
+                    items.append({'stmt': f'L{tagbase}.{idx}'})
+        return items
+
+    def gen_file(self, loc, depth):
+        rng = self.rng
+        self.files[loc] = None                                    # open: nothing may refer to it until it is complete
+        nver = min(rng.choice([1, 1, 2, 2, 2, 3, 3]), max(1, self.versions_left))
+        versions = []
+        for i in range(nver):
+            self.versions_left -= 1
+            if rng.random() < self.p_fail * (1 if i else 0.4):
+                kind = rng.choice(['missing', 'throws', 'broken'])
+                if kind == 'broken':
+                    versions.append({'kind': 'broken', 'text': f"systemLog('Lnever{self.counter}')\n" + rng.choice(BROKEN_LINES) + '\n'})
+                elif kind == 'throws':
+                    versions.append({'kind': 'throws', 'exc': rng.choice(THROWS)})
+                else:
+                    versions.append({'kind': 'missing'})
+            else:
+                versions.append({'kind': 'text', 'items': self.gen_items(loc, depth)})
+        self.files[loc] = {'versions': versions}
+        if (spec_is_url(loc) or (loc.startswith('/') and spec_resolve('', loc) == loc)) and "'" not in loc:
+            self.done_locs.append(loc)
+        if nver > 1:
+            self.multi.append(loc)
+
+    def build(self):
+        items = self.gen_items(self.root_loc, 0, want_inc=True)
+        return rx_finish({'kind': 'reexec', 'files': self.files, 'root': {'items': items}, 'urlFn': self.root_loc, 'systemPrefix': self.prefix,
+                          'maxStatements': self.max_statements, 'mode': self.mode})
+
+
+def rx_hand_cases():
+    """The smallest members of the family, one per way of executing an include statement again."""
+    def leaf(tag, *more):
+        return {'kind': 'text', 'items': [{'stmt': tag}] + list(more)}
+    out = []
+    for root_loc, ref, loc in [('/r/main.bare', 'gen/part.bare', '/r/gen/part.bare'), ('http://h/a/main.bare', 'part.bare', 'http://h/a/part.bare'),
+                               (None, 'part.bare', 'part.bare')]:
+        start = len(out)
+        inc = {'inc': [[ref, False]]}
+        three = {'versions': [leaf('Lv0'), leaf('Sv1'), leaf('Lv2')]}
+        for kind in RX_LOOPS:
+            # the same statement, three rounds, the text differs every time
+            out.append({'files': {loc: three}, 'root': {'items': [{'loop': kind, 'n': 3, 'var': 'i1', 'body': [inc, {'stmt': 'Lafter'}]}, inc, {'stmt': 'Ltail'}]},
+                        'mode': 'counter'})
+            # the script rewrites the location before every round
+            out.append({'files': {loc: three}, 'mode': 'static',
+                        'root': {'items': [{'loop': kind, 'n': 3, 'var': 'i1', 'body': [{'set': loc, 'var': 'i1', 'mod': 3}, inc, {'stmt': 'Safter'}]}]}})
+            # the text does not change: still one fetch and one execution per round
+            out.append({'files': {loc: {'versions': [leaf('Lsame')]}}, 'mode': 'counter',
+                        'root': {'items': [{'loop': kind, 'n': 2, 'var': 'i1', 'body': [inc]}]}})
+            # the second round cannot be fetched / does not parse
+            for bad in ({'kind': 'missing'}, {'kind': 'throws', 'exc': 'OSError'}, {'kind': 'broken', 'text': 'x = 1 +\n'}):
+                out.append({'files': {loc: {'versions': [leaf('Lv0'), bad]}}, 'mode': 'counter',
+                            'root': {'items': [{'loop': kind, 'n': 3, 'var': 'i1', 'body': [inc, {'stmt': 'Lafter'}]}]}})
+            # only in some rounds; inside a function that is called from the loop
+            out.append({'files': {loc: three}, 'mode': 'counter',
+                        'root': {'items': [{'loop': kind, 'n': 4, 'var': 'i1', 'body': [{'when': [0, 2, 3], 'var': 'i1', 'body': [inc]}, {'stmt': 'Lr'}]}]}})
+            out.append({'files': {loc: three}, 'mode': 'counter',
+                        'root': {'items': [{'def': 'f1', 'body': [inc, {'stmt': 'Lf'}]}, {'loop': kind, 'n': 3, 'var': 'i1', 'body': [{'call': 'f1'}]}]}})
+            # the loop is in an included file (its own base), the inner file changes and returns early
+            inner = {'versions': [leaf('Lq0', 'ret', {'stmt': 'Lnever'}), leaf('Sq1')]}
+            mid = {'versions': [{'kind': 'text', 'items': [{'loop': kind, 'n': 3, 'var': 'i2', 'body': [{'inc': [['sub/q.bare', False]]}]}, {'stmt': 'Lmid'}]}]}
+            out.append({'files': {loc: mid, spec_resolve(loc, 'sub/q.bare'): inner}, 'mode': 'counter',
+                        'root': {'items': [inc, {'stmt': 'Lback'}, inc]}})
+        # a function called again and again (a new frame each time); the same file named by different statements
+        out.append({'files': {loc: three}, 'mode': 'counter',
+                    'root': {'items': [{'def': 'f1', 'body': [inc]}, {'call': 'f1'}, {'stmt': 'La'}, {'call': 'f1'}, {'call': 'f1'}]}})
+        out.append({'files': {loc: three}, 'mode': 'counter', 'root': {'items': [inc, {'stmt': 'La'}, inc, {'inc': [[ref, False], [ref, False]]}]}})
+        for c in out[start:]:
+            c['urlFn'] = root_loc
+    cases = []
+    for c in out:
+        c.update({'kind': 'reexec', 'systemPrefix': None, 'maxStatements': BIG})
+        cases.append(rx_finish(json.loads(json.dumps(c))))       # a private copy: versions are shared between the hand cases above
+    return cases
+
+
+def rx_run_impl(case):
+    """Execute the real implementation on the rendered texts of a reexec case. -> observation dict"""
+    m = fw.impl()
+    parser, runtime, options_mod = m['parser'], m['runtime'], m['options']
+    events, bad_requests = [], []
+    files = case['files']
+    counter = case['mode'] == 'counter'
+    cur = {loc: 0 for loc in files}
+
+    def fetch_fn(request):
+        if not isinstance(request, dict) or set(request) != {'url'}:
+            bad_requests.append(repr(request))
+        url = request['url']
+        events.append(['fetch', url])
+        f = files.get(url)
+        if f is None:
+            return None
+        v = cur[url] % len(f['versions'])
+        ver = f['versions'][v]
+        if counter:
+            cur[url] = (v + 1) % len(f['versions'])
+        if ver['kind'] == 'missing':
+            return None
+        if ver['kind'] == 'throws':
+            raise make_exc(ver.get('exc', 'ValueError'))
+        return ver['text']
+
+    def vfs_set(args, unused_options):
+        cur[args[0]] = int(args[1])
+
+    def log_fn(text):
+        events.append(['exec', text])
+
+    globals_ = {'trace': '', 'vfsSet': vfs_set}
+    options = {'globals': globals_, 'logFn': log_fn, 'maxStatements': case['maxStatements'], 'fetchFn': fetch_fn}
+    if case['systemPrefix'] is not None:
+        options['systemPrefix'] = case['systemPrefix']
+    if case['urlFn'] is not None:
+        options['urlFn'] = functools.partial(options_mod.url_file_relative, case['urlFn'])
+    try:
+        script = parser.parse_script(case['root']['text'])
+    except Exception as exc:  # pylint: disable=broad-except
+        return {'events': [], 'outcome': {'kind': 'root-does-not-parse', 'msg': str(exc)}, 'trace': ''}
+    outcome = {'kind': 'ok'}
+    try:
+        runtime.execute_script(script, options)
+    except parser.BareScriptParserError as exc:
+        first = str(exc).partition('\n')[0]
+        if first.startswith('Included from "') and first.endswith('"'):
+            outcome = {'kind': 'parseError', 'url': first[len('Included from "'):-1]}
+        else:
+            outcome = {'kind': 'other', 'class': 'BareScriptParserError', 'msg': str(exc)}
+    except runtime.BareScriptRuntimeError as exc:
+        msg = str(exc)
+        if msg.startswith('Include of "') and msg.endswith('" failed'):
+            outcome = {'kind': 'includeFailed', 'url': msg[len('Include of "'):-len('" failed')]}
+        elif msg == f'Exceeded maximum script statements ({case["maxStatements"]})':
+            outcome = {'kind': 'exceeded'}
+        else:
+            outcome = {'kind': 'other', 'class': 'BareScriptRuntimeError', 'msg': msg}
+    except BaseException as exc:  # pylint: disable=broad-except
+        outcome = {'kind': 'other', 'class': type(exc).__name__, 'msg': str(exc)}
+    out = {'events': events, 'outcome': outcome, 'trace': globals_.get('trace')}
+    if bad_requests:
+        out['bad_requests'] = bad_requests[:3]
+    return out
+
+
+def rx_verdict(case, want=None):
+    """-> (expected, actual, ok?, stats) ; expected None: the unrolled run is too long to be a case"""
+    want = want if want is not None else rx_expected(case)
+    if want is None:
+        return None, None, True, {}
+    impl = rx_run_impl(case)
+    got = {'events': impl['events'], 'outcome': impl['outcome'], 'trace': impl['trace']}
+    if impl['outcome'].get('kind') == 'exceeded':
+        # the statement budget is C09's business: what ran must be an initial part of what the property prescribes
+        n = len(impl['events'])
+        ok = impl['events'] == want['events'][:n] and isinstance(impl['trace'], str) and want['trace'].startswith(impl['trace'])
+        return {'events_prefix_of': want['events'], 'trace_prefix_of': want['trace'], 'outcome': 'exceeded (budget), any prefix'}, got, ok, want['stats']
+    exp = {k: want[k] for k in ('events', 'outcome', 'trace')}
+    ok = exp == got and not impl.get('bad_requests')
+    if impl.get('bad_requests'):
+        got['bad_requests'] = impl['bad_requests']
+    return exp, got, ok, want['stats']
+
+
+def rx_shrink(case):
+    """Greedy reduction of a failing case (fewer rounds, fewer items) - the witness stays a failing input of the property."""
+    def fails(c):
+        try:
+            c = rx_finish(c)
+            return not rx_verdict(c)[2]
+        except Exception:  # pylint: disable=broad-except
+            return False
+
+    def item_lists(c):
+        todo = [c['root']['items']] + [v['items'] for f in c['files'].values() for v in f['versions'] if v['kind'] == 'text']
+        while todo:
+            items = todo.pop()
+            yield items
+            for it in items:
+                if isinstance(it, dict) and 'body' in it:
+                    todo.append(it['body'])
+
+    best = json.loads(json.dumps(case))
+    budget = 200
+    changed = True
+    while changed and budget > 0:
+        changed = False
+        li = 0
+        while budget > 0:
+            lists = list(item_lists(best))
+            if li >= len(lists):
+                break
+            for ii in reversed(range(len(lists[li]))):
+                if budget <= 0:
+                    break
+                cand = json.loads(json.dumps(best))
+                cand_lists = list(item_lists(cand))
+                if li >= len(cand_lists) or ii >= len(cand_lists[li]):
+                    continue
+                it = cand_lists[li][ii]
+                if isinstance(it, dict) and 'def' in it:
+                    continue                                          # calls would dangle
+                del cand_lists[li][ii]
+                budget -= 1
+                if fails(cand):
+                    best, changed = cand, True
+            li += 1
+    # drop the locations nothing refers to any more
+    keep, todo = set(), [(best['urlFn'], best['root']['items'])]
+    while todo:
+        self_loc, items = todo.pop()
+        for it in items:
+            if isinstance(it, dict) and 'body' in it:
+                todo.append((self_loc, it['body']))
+            if isinstance(it, dict) and 'inc' in it:
+                for url, system in it['inc']:
+                    loc = spec_location(best['systemPrefix'], self_loc, url, system)
+                    if loc not in keep:
+                        keep.add(loc)
+                        todo.extend((loc, v['items']) for v in (best['files'].get(loc) or {'versions': []})['versions'] if v['kind'] == 'text')
+    pruned = json.loads(json.dumps(best))
+    pruned['files'] = {k: v for k, v in best['files'].items() if k in keep}
+    return rx_finish(pruned) if fails(pruned) else rx_finish(best)
+
+
+def rx_case_tags(case, stats, got):
+    tags = ['outcome:' + got['outcome'].get('kind', '?'), 'mode:' + case['mode']]
+    tags += [k for k, v in stats.items() if v]
+    text = case['root']['text'] + ''.join(v.get('text') or '' for f in case['files'].values() for v in f['versions'])
+    for word, tag in (('while true:', 'loop:whilebreak'), ('jumpif', 'loop:jump'), ('for e', 'loop:for'), ('endwhile', 'loop:while-or-break'),
+                      ('function fn', 'function'), ('vfsSet(', 'script-rewrites-location')):
+        if word in text:
+            tags.append(tag)
+    nf = sum(1 for e in got['events'] if e[0] == 'fetch')
+    tags.append('fetches:' + ('0' if nf == 0 else '1-3' if nf <= 3 else '4-9' if nf <= 9 else '10-29' if nf <= 29 else '30+'))
+    return tags
+
+
+def stream_reexec(ctx):
+    st = ctx.stream('reexec', 'programs whose include statements are executed more than once - in while / for / raw backward-jump / while-true-break '
+                              'loops (0-4 rounds, nested to 2), under if-conditions on the round, in functions called again (new frame), the same '
+                              'location named by several statements and files - over a virtual file system whose locations hold 1-3 versions '
+                              '(text / missing / throwing / broken) that change with every fetch (counter) or when the script rewrites them '
+                              '(host function vfsSet); rendered as BareScript, run with execute_script; the recorded sequence of fetch requests and '
+                              'log lines, the global "trace" and the outcome must equal the property statement unrolled along the control flow '
+                              '(implementation-side reference; the Lean machine has no loops); non-trivial = some include statement ran more than '
+                              'once, or some location was fetched more than once')
+    cases = [('hand', c) for c in rx_hand_cases()]
+    rng = ctx.rng('reexec')
+    n_random = ctx.scale(2500, 30000)
+    while n_random > 0:
+        case = LoopGen(rng).build()
+        cases.append(('random', case))
+        n_random -= 1
+    reported = 0
+    for origin, case in cases:
+        exp, got, ok, stats = rx_verdict(case)
+        if exp is None:
+            continue
+        nontrivial = bool(stats.get('reexec-same-frame') or stats.get('reexec-new-frame') or stats.get('refetched'))
+        st.case({'root': case['root']['text'], 'urlFn': case['urlFn'], 'prefix': case['systemPrefix'], 'mode': case['mode'], 'files': sorted(case['files'])[:6]},
+                nontrivial=nontrivial, tags=rx_case_tags(case, stats, got) + [origin])
+        if not ok and reported < 12:
+            reported += 1
+            small = rx_shrink(case) if origin == 'random' else case
+            exp, got, ok2, _ = rx_verdict(small)
+            if ok2 or exp is None:
+                small = case
+                exp, got, _, _ = rx_verdict(small)
+            ctx.witness('include-reexec', small, exp, got)
+
+
+# ---------------------------------------------------------------------------------------------------------------------
 
 def streams(ctx):
     url_pairs, inc_cases = load_corpus()
     stream_url(ctx, url_pairs)
     stream_include(ctx, inc_cases)
+    stream_reexec(ctx)
     stream_cli(ctx)
     ctx.witnesses.sort(key=lambda w: len(json.dumps(w, default=str)))
 
@@ -847,6 +1437,11 @@ def search(ctx):
         if not ok:
             ctx.witness('include-tree', case, want, {'events': impl['events'], 'outcome': impl['outcome'], 'trace': impl['trace']})
             return
+    for case in rx_hand_cases() + [LoopGen(rng).build() for _ in range(ctx.scale(4000, 40000))]:
+        exp, got, ok, _ = rx_verdict(case)
+        if not ok:
+            ctx.witness('include-reexec', case, exp, got)
+            return
 
 
 def replay(witness):
@@ -859,6 +1454,8 @@ def replay(witness):
         return not isinstance(again, str) or spec_segments(again) != spec_segments(inp[1]) or impl_resolve('/other/place.bare', again) != again
     if oracle == 'cli-include-tree':
         return _replay_cli(inp, witness)
+    if oracle == 'include-reexec':
+        return not rx_verdict(inp)[2]
     impl = run_impl(inp)
     if oracle == 'include-tree':
         _, ok = spec_obs(inp, impl)
